@@ -24,7 +24,7 @@ from __future__ import annotations
 import ast
 import pathlib
 
-from ..absint import TOP, Evaluator, Lin, Obj, Sym, Unmodelled
+from ..absint import TOP, Evaluator, Lin, Obj, Raised, Sym, Unmodelled
 from ..callgraph import CallGraph
 from ..core import norm, own_nodes
 from ..geometry import POSITIONS, length_changing_positions
@@ -204,6 +204,9 @@ def _lazy_transform(ctx, P):
             ev.call(wrapper, [make_da("phi", [Sym("t"), Sym("zc")], name=Sym("phi_name")), make_da("theta", [Sym("t"), Sym("zo")]), make_da("levels", [Sym("lev")]), Sym("zc"), Sym("zo"), Sym("lev")], {}, None)
         except Unmodelled as e:
             ctx.unknown("R06.8", inst, str(e))
+            continue
+        except Raised as r:
+            ctx.report("R06.8", raw, inst, f"a plain call of the wrapper raises {r.typ}" + (f" ({r.msg})" if r.msg else ""))
             continue
         except Exception as e:
             ctx.unknown("R06.8", inst, f"{type(e).__name__}: {e}")
